@@ -1380,6 +1380,10 @@ tp_thread_proc(void *data) {
 	LCB_VERIF_POINT(LCB_VP_THREAD_PROC_BEFORE_LOOP);
 	tpt_loop(tpt);
 	LCB_VERIF_POINT(LCB_VP_THREAD_PROC_AFTER_LOOP);
+	/* Accepted messages must not be lost: this thread queue and what is
+	 * left in the shared queue of the pool virtual thread. */
+	tpt_msg_queue_drain(tpt);
+	tpt_msg_queue_drain(tpt->tp->pvt);
 
 	if (NULL != tpt->tp->s.tpt_on_stop) {
 		tpt->tp->s.tpt_on_stop(tpt);
